@@ -17,11 +17,21 @@ func init() {
 			Kind: slip.MacroSymbol,
 			Name: "shiftf",
 			Args: []*slip.DocArg{
+				{
+					Name: "place-1",
+					Type: "place",
+					Text: "The first place to get a value from and to set a value to.",
+				},
+				{
+					Name: "place-2",
+					Type: "place",
+					Text: "The second place to get a value from and to set a value to.",
+				},
 				{Name: "&rest"},
 				{
 					Name: "places",
 					Type: "place",
-					Text: "Places to get values from and to set values to.",
+					Text: "More places to get values from and to set values to.",
 				},
 			},
 			Return: "nil",
